@@ -858,16 +858,58 @@ func (st *State) builtin(f *Frame, ins ssa.Instruction, b *ssa.Builtin, cc *ssa.
 			return n
 		}
 		arr := st.elemsArr(st.heap, es)
-		old := app("select", arr, app("s_ref", dst.Term))
-		na := st.fresh("copied_arr", ArrSort(BV(64), es))
-		// exact for the byte abstraction when the whole destination is overwritten
-		st.heapSet(elemsName(es), ArrSort(SRef, ArrSort(BV(64), es)), ite(eq(n.Term, bvInt(0, 64)), arr, app("store", arr, app("s_ref", dst.Term), na)))
-		_ = old
-		if es == BV(8) && src.S == SSlice {
-			// if the copy covers the whole destination, the destination's bytes equal the source prefix
-			full := and(eq(n.Term, dl), eq(n.Term, srcLen))
-			st.assume(imp(full, eq(app("bseq", na, app("s_off", dst.Term), dl), app("bseq", app("select", arr, app("s_ref", src.Term)), app("s_off", src.Term), srcLen))))
+		if st.eng.freshAppend {
+			// older model: the destination array is forgotten as a whole
+			na := st.fresh("copied_arr", ArrSort(BV(64), es))
+			st.heapSet(elemsName(es), ArrSort(SRef, ArrSort(BV(64), es)), ite(eq(n.Term, bvInt(0, 64)), arr, app("store", arr, app("s_ref", dst.Term), na)))
+			if es == BV(8) && src.S == SSlice {
+				full := and(eq(n.Term, dl), eq(n.Term, srcLen))
+				st.assume(imp(full, eq(app("bseq", na, app("s_off", dst.Term), dl), app("bseq", app("select", arr, app("s_ref", src.Term)), app("s_off", src.Term), srcLen))))
+			}
+			return n
 		}
+		// exact: elements [doff, doff+n) of the destination's array become the first n source
+		// elements (read before anything is written, so overlapping copies behave like memmove);
+		// every other element of that array stays
+		as := ArrSort(BV(64), es)
+		dref, doff := app("s_ref", dst.Term), app("s_off", dst.Term)
+		dArr := app("select", arr, dref)
+		srcAt := func(k string) string {
+			if src.S == SStr {
+				return app("str_at", src.Term, k)
+			}
+			return app("select", app("select", arr, app("s_ref", src.Term)), app("bvadd", app("s_off", src.Term), k))
+		}
+		var na string
+		var L int64 = -1
+		for k := int64(0); k <= 16; k++ {
+			if dl == bvInt(k, 64) {
+				L = k
+			}
+		}
+		if L >= 0 {
+			na = dArr
+			for k := int64(0); k < L; k++ {
+				at := app("bvadd", doff, bvInt(k, 64))
+				na = app("store", na, at, ite(app("bvslt", bvInt(k, 64), n.Term), srcAt(bvInt(k, 64)), app("select", dArr, at)))
+			}
+			na = st.define("copied_arr", na, as)
+		} else {
+			na = st.fresh("copied_arr", as)
+			end := app("bvadd", doff, n.Term)
+			st.assume(fmt.Sprintf("(forall ((i (_ BitVec 64))) (! (=> (or (bvslt i %s) (bvsge i %s)) (= (select %s i) (select %s i))) :pattern ((select %s i))))", doff, end, na, dArr, na))
+			st.assume(fmt.Sprintf("(forall ((i (_ BitVec 64))) (! (=> (and (bvsle (_ bv0 64) i) (bvslt i %s)) (= (select %s (bvadd %s i)) %s)) :pattern ((select %s (bvadd %s i)))))", n.Term, na, doff, srcAt("i"), na, doff))
+		}
+		if es == BV(8) {
+			// the byte abstraction: the copied range holds the first n source bytes, byte ranges outside it stay
+			if src.S == SSlice {
+				st.assume(eq(app("bseq", na, doff, n.Term), app("bseq", app("select", arr, app("s_ref", src.Term)), app("s_off", src.Term), n.Term)))
+			} else if src.S == SStr {
+				st.assume(imp(eq(n.Term, srcLen), eq(app("bseq", na, doff, n.Term), app("str_bytes", src.Term))))
+			}
+			st.assume(bseqFrame(na, dArr, doff, app("bvadd", doff, n.Term)))
+		}
+		st.heapSet(elemsName(es), ArrSort(SRef, as), app("store", arr, dref, na))
 		return n
 	case "delete":
 		m, k := args[0], args[1]
@@ -922,8 +964,81 @@ func (st *State) builtin(f *Frame, ins ssa.Instruction, b *ssa.Builtin, cc *ssa.
 	return Value{S: "Tuple"}
 }
 
-// append: the result is modelled as a freshly allocated backing array holding the
-// old elements followed by the new ones (exact for up to 4 appended elements,
+// bseqFrame: the byte ranges of the array na that lie outside [lo, hi) read as they do in old.
+func bseqFrame(na, old, lo, hi string) string {
+	max := bvInt(1<<40, 64)
+	return fmt.Sprintf("(forall ((a (_ BitVec 64)) (l (_ BitVec 64))) (! (=> (and (bvsle (_ bv0 64) a) (bvsle (_ bv0 64) l) (bvsle a %s) (bvsle l %s) (or (bvsle (bvadd a l) %s) (bvsge a %s))) (= (bseq %s a l) (bseq %s a l))) :pattern ((bseq %s a l))))",
+		max, max, lo, hi, na, old, na)
+}
+
+// appendInPlace models append as Go defines it: if the new length fits the capacity of s, the
+// new elements are written into the backing array of s (every slice sharing that array sees
+// them) and the result shares it; otherwise the result is a freshly allocated array holding
+// the old elements followed by the new ones. (The in-place write is not checked against the
+// frame: it lies beyond the length of s, where the caller's contract cannot name a location.)
+func (st *State) appendInPlace(freshRes Value, r string, s, t Value, tl, nl string, es Sort) Value {
+	st.res.Assumed["in-place append: the write into the spare capacity of a slice is not checked against the frame"] = true
+	arr := st.elemsArr(st.heap, es)
+	as := ArrSort(BV(64), es)
+	base, off, ln := app("s_ref", s.Term), app("s_off", s.Term), app("s_len", s.Term)
+	inpl := st.define("app_inplace", app("bvsle", nl, app("s_cap", s.Term)), SBool)
+	oldArr := app("select", arr, base)
+	start := st.define("app_at", app("bvadd", off, ln), BV(64))
+	na := st.fresh("app_arr", as)
+	st.assume(fmt.Sprintf("(forall ((i (_ BitVec 64))) (! (=> (and (bvsle (_ bv0 64) i) (bvslt i %s)) (= (select %s i) (select %s (bvadd %s i)))) :pattern ((select %s i))))",
+		ln, na, oldArr, off, na))
+	var tb string
+	if es == BV(8) {
+		tb = st.bytesOf(st.heap, t)
+	}
+	cnt := int64(-1)
+	if t.S != SStr {
+		for k := int64(0); k <= 4; k++ {
+			if tl == bvInt(k, 64) || strings.HasSuffix(t.Term, " "+bvInt(k, 64)+" "+bvInt(k, 64)+")") {
+				cnt = k
+			}
+		}
+	}
+	var ia string
+	if cnt >= 0 {
+		// a known small number of elements: exact stores
+		tArr := app("select", arr, app("s_ref", t.Term))
+		ia = oldArr
+		for k := int64(0); k < cnt; k++ {
+			v := app("select", tArr, app("bvadd", app("s_off", t.Term), bvInt(k, 64)))
+			st.assume(eq(app("select", na, app("bvadd", ln, bvInt(k, 64))), v))
+			ia = app("store", ia, app("bvadd", start, bvInt(k, 64)), v)
+		}
+		ia = st.define("app_in", ia, as)
+	} else {
+		ia = st.fresh("app_in", as)
+		end := app("bvadd", start, tl)
+		st.assume(fmt.Sprintf("(forall ((i (_ BitVec 64))) (! (=> (or (bvslt i %s) (bvsge i %s)) (= (select %s i) (select %s i))) :pattern ((select %s i))))",
+			start, end, ia, oldArr, ia))
+		if t.S != SStr {
+			tArr := app("select", arr, app("s_ref", t.Term))
+			for _, p := range [][2]string{{na, ln}, {ia, start}} {
+				st.assume(fmt.Sprintf("(forall ((i (_ BitVec 64))) (! (=> (and (bvsle (_ bv0 64) i) (bvslt i %s)) (= (select %s (bvadd %s i)) (select %s (bvadd %s i)))) :pattern ((select %s (bvadd %s i)))))",
+					tl, p[0], p[1], tArr, app("s_off", t.Term), p[0], p[1]))
+			}
+		}
+	}
+	res := Value{T: freshRes.T, S: SSlice, Term: st.define("app_res", ite(inpl, app("mk_slice", base, off, nl, app("s_cap", s.Term)), freshRes.Term), SSlice)}
+	if es == BV(8) {
+		// the byte abstraction: the result holds the old bytes followed by the new ones; the bytes of s itself stay
+		resArr, resOff := ite(inpl, ia, na), ite(inpl, off, bvInt(0, 64))
+		ob := app("bseq", oldArr, off, ln)
+		st.assume(eq(app("bseq", resArr, resOff, nl), app("cat", ob, tb)))
+		st.assume(eq(app("bseq", ia, off, ln), ob))
+		st.assume(eq(app("bseq", resArr, app("bvadd", resOff, ln), tl), tb))
+		st.assume(bseqFrame(ia, oldArr, start, app("bvadd", start, tl)))
+	}
+	st.heapSet(elemsName(es), ArrSort(SRef, as), app("store", app("store", arr, r, na), base, ite(inpl, ia, oldArr)))
+	return res
+}
+
+// append, older model (QEDVC_FRESH_APPEND=1): the result is a freshly allocated backing array
+// holding the old elements followed by the new ones (exact for up to 4 appended elements,
 // lengths only beyond that). In-place growth into spare capacity is not modelled.
 func (st *State) appendBuiltin(cc *ssa.CallCommon, args []Value) Value {
 	te := st.eng.te
@@ -931,7 +1046,6 @@ func (st *State) appendBuiltin(cc *ssa.CallCommon, args []Value) Value {
 	T := cc.Args[0].Type()
 	sl := T.Underlying().(*types.Slice)
 	es := te.SortOf(sl.Elem())
-	st.res.Assumed["append returns a fresh backing array (writes into spare capacity of the old one are not modelled)"] = true
 	tl := app("s_len", t.Term)
 	if t.S == SStr {
 		tl = app("slen", t.Term)
@@ -942,7 +1056,15 @@ func (st *State) appendBuiltin(cc *ssa.CallCommon, args []Value) Value {
 	nc := st.fresh("appcap", BV(64))
 	st.assume(and(app("bvsle", nl, nc), app("bvsle", nc, bvInt(1<<40, 64))))
 	res := Value{T: T, S: SSlice, Term: app("mk_slice", r, bvInt(0, 64), nl, nc)}
-	if _, isStruct := sl.Elem().Underlying().(*types.Struct); isStruct || t.S == SStr {
+	if _, isStruct := sl.Elem().Underlying().(*types.Struct); isStruct || (t.S == SStr && es != BV(8)) {
+		st.res.Assumed["append returns a fresh backing array (slices of structs: writes into spare capacity of the old one are not modelled)"] = true
+		return res
+	}
+	if !st.eng.freshAppend {
+		return st.appendInPlace(res, r, s, t, tl, nl, es)
+	}
+	st.res.Assumed["append returns a fresh backing array (writes into spare capacity of the old one are not modelled)"] = true
+	if t.S == SStr {
 		return res
 	}
 	arr := st.elemsArr(st.heap, es)
